@@ -16,6 +16,7 @@ mod c17;
 mod c17e;
 mod c18s;
 mod c19;
+mod c19r;
 mod common;
 mod corpus;
 mod dwarfref;
@@ -96,6 +97,8 @@ fn main() {
                 "c16_vard" => ("C16", c06s::part_vard(tier)),
                 "c18_shlib" => ("C18", c18s::part_shlib(tier)),
                 "c17_names" => ("C17", c17e::part_names(tier)),
+                "c12_second" => ("C12", c12::part_second_lifecycle(tier)),
+                "c19_regs" => ("C19", c19r::part_registers(tier)),
                 "c17_objects" => ("C17", c18s::part_names_across_objects(tier)),
                 "c15_dap" => ("C15", c15d::part_dap_data(tier)),
                 "c05_threads" => ("C05", mt::part_c05_threads(tier)),
@@ -225,6 +228,7 @@ fn run_check(id: &str, tier: Tier) -> i32 {
             let mut r = Report::new("C12", tier, "model_checking");
             r.parts.push(sched::part_sched(tier));
             r.parts.push(c12::part_histories(tier));
+            r.parts.push(c12::part_second_lifecycle(tier));
             finish(r)
         }
         "C13" => {
@@ -256,6 +260,7 @@ fn run_check(id: &str, tier: Tier) -> i32 {
         "C19" => {
             let mut r = Report::new("C19", tier, "exploration");
             r.parts.push(c19::part_c19(tier));
+            r.parts.push(c19r::part_registers(tier));
             finish(r)
         }
         "C18" => {
